@@ -30,9 +30,17 @@ SPECIES = {
 }
 LOADABLE = ('S1', 'S2', 'S3', 'S4', 'S5')
 SYMBOLS = ('S1', 'S2', 'S3', 'S4', 'W', 'S5')
+# two species that SHARE a residue kind (the only ones that do): S6 begins with the kind repeated, S7 ends with it, so in
+# "S7 S6" three equal residues of two molecules lie side by side; every file over them still has exactly one reading.
+# Enumerated on their own (files up to length 3 over {S6, S7, W}), without the refused-topology part (a topology of
+# the other species' kinds could legitimately match there)
+SPECIES['S6'] = [('M', ['M1']), ('M', ['M1']), ('N', ['N1'])]
+SPECIES['S7'] = [('P', ['P1']), ('M', ['M1'])]
+LOADABLE2 = ('S6', 'S7')
+SYMBOLS2 = ('S6', 'S7', 'W')
 NUMBERINGS = ('seq', 'alt', 'wrap', 'same')
 ATOMS_OF = {'A': ['A1', 'A2'], 'B': ['B1'], 'C': ['C1', 'C2'], 'D': ['D1'], 'E': ['E1'],
-            'F': ['F1', 'F2', 'F3'], 'W': ['OW'], 'M': ['M1']}
+            'F': ['F1', 'F2', 'F3'], 'W': ['OW'], 'M': ['M1'], 'N': ['N1'], 'P': ['P1']}
 # candidate topologies whose residue kinds may exist in a file while their sequence does not
 GHOST_SEQS = (('B', 'B'), ('C', 'C'), ('C', 'B'), ('E', 'D'), ('D', 'E'), ('D', 'D', 'D'),
               ('A', 'A'), ('A', 'W'), ('W', 'F'), ('F', 'A'))
@@ -78,7 +86,7 @@ def build_file(seq, num, seed):
     rid, prev_rn = 0, None
     # numbering class 'wrap': the ATOM numbers wrap too (a piece cut out of a box of >= 100 000 atoms): ..., 99999, 0, 1, ...
     # the wrap falls after the 1st, 2nd or 3rd atom of the file (fixed per sequence), i.e. inside a residue or on a boundary
-    astart = 1 if num != 'wrap' else 99999 - (sum(SYMBOLS.index(x) for x in seq) % 3)
+    astart = 1 if num != 'wrap' else 99999 - (sum((SYMBOLS + SYMBOLS2).index(x) for x in seq) % 3)
     for sym in seq:
         a0 = aid
         names, ids, pos, rids, rnames = [], [], [], [], []
@@ -151,7 +159,9 @@ class C11(Check):
                   'the all-orders length the slice cube is evaluated for one loading order (constructor mode), at '
                   'length 6 with step in {None,-1,2}; len / composition / iteration / every index are evaluated on '
                   'every case.')
-    assumptions = ['residue kinds pairwise disjoint between species ("distinct residue signatures")',
+    assumptions = ['residue kinds pairwise disjoint between species ("distinct residue signatures"), except the pair S6 = M M N / '
+                   'S7 = P M, which share the kind M but whose residue SEQUENCES are distinct and occur in every enumerated file '
+                   'only at the starts of their own instances (asserted per file), so each file has one reading in any loading order',
                    'adjacent residues differ in residue number or in residue name (classes: sequential, alternating '
                    '7/8, wrap ...99998,99999,0,1... (residue AND atom numbers), same number on adjacent residues of different names)',
                    'coordinates: a deterministic table, unique per atom, shifted by VERIF_SEED']
@@ -163,7 +173,7 @@ class C11(Check):
         sl = 4 if tier == 'thorough' else 3      # slice cube on every (sequence, order, mode) up to this length
         nl = 4 if tier == 'thorough' else 3      # numbering classes alt, wrap, same up to this length
         sl2 = 3 if tier == 'thorough' else 2     # same, for the numbering classes other than seq
-        self.bounds = {'sequence_len_max': lmax, 'species': 4, 'solvent': 'W (never loaded)',
+        self.bounds = {'sequence_len_max': lmax, 'species': 4, 'shared_kind_species': 'S6 = M M N and S7 = P M: every file up to length 3 over {S6, S7, W}, all numberings, all loading orders, both modes', 'solvent': 'W (never loaded)',
                        'numberings': list(NUMBERINGS), 'loading_orders': 'all permutations',
                        'modes': ['ctor', 'add'], 'slice_values': '{None,-2,-1,0,1,2,n}^3, step != 0',
                        'slice_cube_all_orders_up_to_len': {'seq': sl, 'alt/wrap/same': sl2},
@@ -189,12 +199,32 @@ class C11(Check):
                     i += 1
                     if i % unit['mod'] == unit['r']:
                         yield {'seq': list(seq), 'num': num, 'sl': unit['sl'] if num == 'seq' else unit['sl2']}
+        for ln in range(1, 4):
+            for seq in itertools.product(SYMBOLS2, repeat=ln):
+                if set(seq) == {'W'}:
+                    continue
+                for num in NUMBERINGS:
+                    i += 1
+                    if i % unit['mod'] == unit['r']:
+                        yield {'seq': list(seq), 'num': num, 'sl': unit['sl'] if num == 'seq' else unit['sl2'], 'shared': 1}
 
     # ------------------------------------------------------------------
     def check_case(self, case, R, seed):
         seq, num = case['seq'], case['num']
         text, inst, stream = build_file(seq, num, seed)
-        present = [s for s in LOADABLE if s in seq]
+        present = [s for s in LOADABLE + LOADABLE2 if s in seq]
+        if case.get('shared'):
+            # premise of the shared-kind files: each species' residue sequence occurs in the file's residue stream exactly
+            # at the starts of its own instances, so the file has ONE reading whatever the loading order
+            pos, true = 0, {}
+            for sym in seq:
+                true.setdefault(sym, []).append(pos)
+                pos += len(SPECIES[sym])
+            kinds = [rn for sym in seq for rn, _ in SPECIES[sym]]
+            for sp in present:
+                pat = [rn for rn, _ in SPECIES[sp]]
+                occ = [k for k in range(len(kinds) - len(pat) + 1) if kinds[k:k + len(pat)] == pat]
+                assert occ == true[sp], (seq, sp, occ, true[sp])
         if 'ghost' in case:
             self._ghost(case, R, text, inst, stream, present)
             return
@@ -214,7 +244,7 @@ class C11(Check):
                 for tnum in tnums:
                     self._load(dict(case, perm=perm, mode=mode, tnum=tnum), R, text, inst, perm, mode,
                                level if tnum == 'seq' else min(level, 1))
-        if 'perm' not in case and num == 'seq':
+        if 'perm' not in case and num == 'seq' and not case.get('shared'):
             for g in self._ghosts(seq, stream, present):
                 self._ghost(dict(case, ghost=g), R, text, inst, stream, present)
 
